@@ -758,6 +758,12 @@ class Scen:
         from dulwich import porcelain
         name = s["tree"]
         a, b = self.trees[self.head], self.trees[name]
+        if s.get("dirty") and self.model_ok and any(
+                os.path.isdir(self.full(p)) and not os.path.islink(self.full(p)) and not os.listdir(self.full(p)) for p in a):
+            # an EMPTY directory where the old tree has a file: _transition_to_absent removes it and drops the index
+            # entry, whereas for an absent path it keeps the entry; the model has no empty directories
+            self.model_ok = False
+            self.ctx.count(self.stream + ".outside-model-domain", (self.label, len(self.script)), False, "empty-dir-at-tracked-path")
         self.sync_model_wd()
         err = None
         try:
